@@ -1,9 +1,81 @@
-"""C13 (store part): the triple store is a set — spec/store/RdfStore.tla, MC_RdfIndex.tla; harness `gv rdf`.
-The SPARQL part is served by the query-semantics engine when present (see DESIGN §7 C13)."""
+"""C13: the triple store is a set — spec/store/RdfStore.tla, MC_RdfIndex.tla; harness `gv rdf`;
+and a SPARQL query returns the solutions of the SPARQL algebra over that set — spec/store/SparqlSem.tla (executable
+definition: BGP, join, FILTER, OPTIONAL = LeftJoin, UNION, projection, DISTINCT, LIMIT, COUNT, INSERT / DELETE DATA),
+Trace_Sparql.tla; harness `gv sparql`."""
+import collections
+import concurrent.futures as cf
 import json
 import os
+import re
 
+import sparql_classes
 import vcommon as V
+
+SPARQL_TRACE = os.path.join(V.SPEC, "store", "Trace_Sparql.tla")
+
+
+def _sparql_chunk(args):
+    k, path, cfg = args
+    return k, V.tlc(SPARQL_TRACE, cfg, name=f"C13-sparql-{k}", workers=1, timeout=3000, xmx="4g", env={"TRACE": path})
+
+
+def sparql_part(rep, wd, tier, seed):
+    """histories of updates and generated queries judged by SparqlSem.tla; returns coverage numbers"""
+    tp = os.path.join(wd, "sparql.ndjson")
+    ntr, ln = (150, 25) if tier == "quick" else (3000, 30)
+    V.gv(["sparql", "--seed", seed, "--traces", ntr, "--len", ln, "--out", tp], timeout=1800)
+    ev = V.read_ndjson(tp)
+    traces = [tr for _, tr in V.split_traces(ev)]
+    nchunks = 6 if tier == "quick" else 14
+    chunks = [[] for _ in range(nchunks)]
+    for i, tr in enumerate(traces):
+        chunks[i % nchunks] += tr
+    cfg = os.path.join(wd, "sparql.cfg")
+    with open(cfg, "w") as f:
+        f.write("SPECIFICATION Spec\nCHECK_DEADLOCK FALSE\n")
+    jobs = []
+    for k, ch in enumerate(chunks):
+        p = os.path.join(wd, f"sparql-{k}.ndjson")
+        V.write_ndjson(p, ch)
+        jobs.append((k, p, cfg))
+    known = {f["id"]: f for f in V.known_for("C13") if f["status"] == "known"}
+    bad = collections.defaultdict(list)
+    states = 0
+    with cf.ThreadPoolExecutor(max_workers=nchunks) as ex:
+        for k, r in ex.map(_sparql_chunk, jobs):
+            if r.timeout or "No error has been found" not in r.out:
+                V.log(r.out[-3000:])
+                raise V.ToolError("Trace_Sparql run failed")
+            states += r.distinct
+            for m in re.finditer(r'<<"MISMATCH", (\d+), \{(.*?)\}>>', r.out):
+                e = chunks[k][int(m.group(1)) - 1]
+                what = m.group(2).replace('"', "")
+                cls = tuple(sorted(sparql_classes.classes(e["q"]["where"]))) if e["a"] == "query" and what == "solutions" else ()
+                # the history up to the event (for the replay file)
+                idx = int(m.group(1)) - 1
+                start = max(i for i in range(idx + 1) if chunks[k][i]["a"] == "reset")
+                hist = [x["text"] for x in chunks[k][start + 1: idx] if x["a"] in ("insert", "delete")]
+                bad[(what, cls)].append((e, hist))
+    for (what, cls), lst in sorted(bad.items()):
+        lst.sort(key=lambda x: len(x[0].get("text", "")))
+        e, hist = lst[0]
+        fid = {("J",): "SparqlJoinOverUnboundVariable", ("F",): "SparqlOptionalFilterScope", ("F", "J"): "SparqlJoinOverUnboundVariable"}.get(cls)
+        if what == "solutions" and fid in known:
+            rep.known(fid, known[fid]["what_fails"])
+            if cls == ("F", "J") and "SparqlOptionalFilterScope" in known:
+                rep.known("SparqlOptionalFilterScope", known["SparqlOptionalFilterScope"]["what_fails"])
+            continue
+        rep.violation(f"SPARQL {what}: {len(lst)} queries differ from SparqlSem.tla, shortest: {e.get('text', '')[:300]} -> rows {json.dumps(e.get('rows'))[:200]} {e.get('info', '')}",
+                      {"what": what, "updates_before": hist, "query": e.get("text"), "abstract": e.get("q"), "rows": e.get("rows"), "info": e.get("info"), "count": len(lst)}, tag="sparql")
+    queries = [e for e in ev if e["a"] == "query"]
+    feats = collections.Counter()
+    for e in queries:
+        for f in ("DISTINCT", "OPTIONAL", "UNION", "FILTER", "LIMIT", "COUNT"):
+            if f in e["text"]:
+                feats[f] += 1
+    clsc = collections.Counter("+".join(sorted(sparql_classes.classes(e["q"]["where"]))) or "plain" for e in queries)
+    return dict(sparql_events=len(ev), sparql_queries=len(queries), sparql_histories=len(traces), sparql_features=dict(feats), sparql_query_classes=dict(clsc),
+                sparql_samples=[e["text"] for e in queries[:: max(1, len(queries) // 4)]][:4]), states
 
 SPECDIR = os.path.join(V.SPEC, "store")
 TRACE = os.path.join(SPECDIR, "Trace_RdfStore.tla")
@@ -20,15 +92,24 @@ def run(tier, seed):
     rep = V.Report(prop, "model_checking", tier, seed)
     wd = V.workdir(prop)
     V.cargo_build()
-    # 1. MC: index mechanism mirrors the set, all histories over 2x2x2 (quick) / 3x2x2 (thorough) triples
-    consts = {"S": "{1, 2}", "P": "{1, 2}", "O": "{1, 2}"} if tier == "quick" else {"S": "{1, 2, 3}", "P": "{1, 2}", "O": "{1, 2}"}
-    cfg = V.write_cfg(os.path.join(wd, "mc.cfg"), constants=consts, invariants=["Mirror"])
-    r = V.tlc(MC, cfg, name="C13mc", workers=8, timeout=1800, coverage=True)
-    V.log(f"[C13] TLC MC_RdfIndex: {r.summary()}")
-    if not r.ok:
-        rep.violation(f"TLC: {r.violation} in MC_RdfIndex", {"tlc": V.tlc_trace_text(r)[-4000:]}, tag="mc")
-    states, trans = r.distinct, r.generated
-    mcs = [{"config": "index mechanism vs set, " + json.dumps(consts), **r.summary()}]
+    # 1. MC: index mechanism mirrors the set, all histories over 2x2x2 triples (quick); thorough adds 3x1x2 and 2x1x3
+    #    (3x2x2 = 12 triples does not finish within the budget)
+    confs = [{"S": "{1, 2}", "P": "{1, 2}", "O": "{1, 2}"}]
+    if tier != "quick":
+        confs += [{"S": "{1, 2, 3}", "P": "{1}", "O": "{1, 2}"}, {"S": "{1, 2}", "P": "{1}", "O": "{1, 2, 3}"}]
+    states = trans = 0
+    mcs = []
+    for ci, consts in enumerate(confs):
+        cfg = V.write_cfg(os.path.join(wd, f"mc{ci}.cfg"), constants=consts, invariants=["Mirror"])
+        r = V.tlc(MC, cfg, name=f"C13mc{ci}", workers=8, timeout=1800, coverage=(ci == 0))
+        V.log(f"[C13] TLC MC_RdfIndex {consts}: {r.summary()}")
+        if r.timeout:
+            rep.notes.append(f"MC_RdfIndex {consts} timed out: {r.distinct} distinct states explored without violation")
+        elif not r.ok:
+            rep.violation(f"TLC: {r.violation} in MC_RdfIndex", {"tlc": V.tlc_trace_text(r)[-4000:]}, tag="mc")
+        states += r.distinct
+        trans += r.generated
+        mcs.append({"config": "index mechanism vs set, " + json.dumps(consts), **r.summary()})
     # 2. conformance: with and without object index, 3 and 5 object terms (IRI = subject IRI, plain / lang / typed literal, blank node)
     tot_tr = tot_ev = nontriv = 0
     samples = []
@@ -74,14 +155,17 @@ def run(tier, seed):
     res = V.validate_trace(TRACE, trace_cfg(os.path.join(wd, "st.cfg"), True, 3), p, name="C13-st")
     if res["accepted"] or res.get("index") != 4:
         raise V.ToolError("binding self-test failed (corrupted stats not rejected)")
-    rep.add(states=states + tot_ev, transitions=trans + tot_ev, model_checking=mcs, traces_validated_against_impl=tot_tr,
+    sp_cov, sp_states = sparql_part(rep, wd, tier, seed)
+    rep.add(**sp_cov)
+    rep.add(states=states + tot_ev + sp_states, transitions=trans + tot_ev + sp_states, model_checking=mcs, traces_validated_against_impl=tot_tr + sp_cov["sparql_histories"],
             events_validated=tot_ev, evaluations=tot_tr, distinct_nontrivial=nontriv,
             rule="random histories over a per-trace sub-universe; non-trivial: contains a duplicate insert and a removal of an absent triple",
             samples=samples, binding_selftest="corrupted stats().subject_count rejected at its event",
             lookups_compared_after_every_call=["find x all bound/unbound patterns", "triples_with_subject/predicate/object", "subjects/predicates/objects",
                                                "len", "stats", "contains for every triple", "triples", "find_with_pending per transaction"])
     rep.assumptions += ["terms: IRIs (one shared between subject and object position), blank nodes, plain / language-tagged / typed literals with equal lexical forms",
-                        "SPARQL evaluation over the set is not covered by this check yet (sub-claim listed in MANIFEST level_note)"]
+                        "SPARQL: terms are IRIs, plain strings and small integers under a fixed predicate schema (object kind per predicate) so that every comparison is between like kinds; blank nodes, language tags, typed literals other than integers, ORDER BY, property paths, sub-queries, GRAPH, aggregates other than COUNT(*), CONSTRUCT / ASK / DESCRIBE are not generated",
+                        "SPARQL queries in the two recorded structural classes (join over a possibly unbound variable; FILTER in OPTIONAL over an outer variable) are expected to differ and are reported as known findings; a difference in any other query is a violation"]
     return rep.finish()
 
 
